@@ -469,6 +469,9 @@ FreeId(s, o) == s.box[o] = "free" /\ ~s.meta[o].alive /\ MapGone(s, o) /\ s.root
                 /\ \A a \in Objs : o \notin Rng(s.fs[a]) \cup Rng(s.fp[a]) \cup Rng(s.fw[a]) \cup (IF CLEAN THEN CapsOf(s, a) ELSE {})
                 /\ o \notin {s.stack[i].o : i \in DOMAIN s.stack}
                 /\ o \notin {s.stack[i].x.o : i \in {j \in DOMAIN s.stack : s.stack[j].k = "op" /\ s.stack[j].x.op \in {"new", "newcyc"}}}
+\* `owner.cleaner.register(..)` borrows the handle through which the owner was named for the whole call (which may run a
+\* collection, i.e. user code): that handle cannot be given up by code running inside the call
+Borrowed(s, o) == Cardinality({i \in DOMAIN s.stack : s.stack[i].k = "op" /\ s.stack[i].x.op = "register" /\ s.stack[i].x.a = o})
 Budget(s) == s.nops < MaxOps
 Begin(s) == [s EXCEPT !.ev = <<>>, !.nops = @ + 1]
 SlotsOf(s, a, k) == IF k = "p" THEN s.fp[a] ELSE s.fs[a]
@@ -692,13 +695,13 @@ ACloneF == /\ "clonef" \in OPS /\ Budget(st) /\ Full(st)
            /\ \E a \in Acc(st), k \in Kinds : \E i \in DOMAIN SlotsOf(st, a, k) :
                 LET t == SlotsOf(st, a, k)[i] IN t # 0 /\ st.roots[t] < MaxRoots /\ st.rc[t] < MAXRC /\ Do(EnvCloneF(Begin(st), a, k, i))
 ADrop == /\ "drop" \in OPS /\ Budget(st) /\ Full(st)
-         /\ \E o \in Objs : st.roots[o] > 0 /\ Do(EnvDrop(Begin(st), o))
+         /\ \E o \in Objs : st.roots[o] > Borrowed(st, o) /\ Do(EnvDrop(Begin(st), o))
 ASet == /\ "set" \in OPS /\ Budget(st) /\ Full(st)
         /\ \E a \in Acc(st), k \in Kinds, b \in Objs : \E i \in DOMAIN SlotsOf(st, a, k) :
              SlotsOf(st, a, k)[i] = 0 /\ st.roots[b] > 0 /\ st.rc[b] < MAXRC /\ Do(EnvSet(Begin(st), a, k, i, b))
 APut == /\ "put" \in OPS /\ Budget(st) /\ Full(st)
         /\ \E a \in Acc(st), k \in Kinds, o \in Objs : \E i \in DOMAIN SlotsOf(st, a, k) :
-             /\ SlotsOf(st, a, k)[i] = 0 /\ st.roots[o] > 0
+             /\ SlotsOf(st, a, k)[i] = 0 /\ st.roots[o] > Borrowed(st, o)
              \* the program must still be able to name `a` after giving up one handle of `o`
              /\ (a # o \/ st.roots[o] >= 2 \/ a \in OpenSelves(st))
              /\ Do(EnvPut(Begin(st), a, k, i, o))
@@ -714,7 +717,7 @@ ACollect == /\ "collect" \in OPS /\ Budget(st)
             /\ \/ Do(EnvCollect(Begin(st), <<>>))
                \/ \E ft \in FaultPlans(st) : st.pc # <<>> /\ Do(EnvCollect(Begin(st), ft))
 AUnwrap == /\ "unwrap" \in OPS /\ Budget(st)
-           /\ \E o \in Objs : st.roots[o] > 0 /\ Do(EnvUnwrap(Begin(st), o))
+           /\ \E o \in Objs : st.roots[o] > Borrowed(st, o) /\ Do(EnvUnwrap(Begin(st), o))
 ADropVal == /\ "unwrap" \in OPS /\ Budget(st) /\ Full(st)
             /\ \E o \in Objs : st.moved[o] /\ o \notin OpenSelves(st) /\ Do(EnvDropVal(Begin(st), o))
 AFAgain == /\ "fagain" \in OPS /\ FIN /\ Budget(st)
@@ -754,7 +757,7 @@ ASat == /\ "sat" \in OPS /\ Budget(st) /\ Top0
 ARegister == /\ "register" \in OPS /\ CLEAN /\ Budget(st) /\ Full(st) /\ st.nact < MaxActs
              /\ \E a \in Acc(st), t \in {0} \cup Objs :
                   /\ st.box[a] = "live"
-                  /\ (t # 0 => st.roots[t] > 0 /\ (t # a \/ st.roots[a] >= 2 \/ a \in OpenSelves(st)) /\ (st.hasmap[a] \/ ~ShouldTrigger(st)))
+                  /\ (t # 0 => st.roots[t] > Borrowed(st, t) /\ (t # a \/ st.roots[a] >= 2 \/ a \in OpenSelves(st)) /\ (st.hasmap[a] \/ ~ShouldTrigger(st)))
                   /\ \/ Do(EnvRegister(Begin(st), a, t, <<>>))
                      \/ \E ft \in FaultPlans(st) : ~st.hasmap[a] /\ ShouldTrigger(st) /\ st.pc # <<>> /\ Do(EnvRegister(Begin(st), a, t, ft))
 AClean == /\ "clean" \in OPS /\ CLEAN /\ Budget(st) /\ Full(st)
